@@ -353,21 +353,26 @@ class State:
         self.env = dict(env or {})
         self.heap = heap if heap is not None else Heap()
         self.pc = list(pc or [])          # list of z3 Bool
+        self.pcn = []                     # parallel list of names (None for anonymous facts)
         self.defs = list(defs or [])      # (lhs, rhs) definitional equalities for fresh objects
         self.tags = []                    # branch labels for obligation names
         self.exc = None                   # currently handled exception (for bare raise)
 
     def copy(self):
         s = State(self.env, self.heap.copy(), self.pc, self.defs)
+        s.pcn = list(self.pcn)
         s.tags = list(self.tags)
         s.exc = self.exc
         return s
 
-    def assume(self, *conds):
+    def assume(self, *conds, name=None):
+        while len(self.pcn) < len(self.pc):
+            self.pcn.append(None)
         for c in conds:
             if c is True or (z3.is_true(c) if z3.is_expr(c) else False):
                 continue
             self.pc.append(c)
+            self.pcn.append(name)
 
 
 class OutOfSubset(Exception):
